@@ -370,6 +370,7 @@ type State struct {
 	names  map[string]Val  // "<func>.<var>#<declpos>" -> latest value seen in a DebugRef (source-level names for invariants)
 	nameSeq map[string]int // order in which the names were last assigned on this path
 	maps   map[int]*MapContent // Go maps created on this path (engine/maps.go)
+	iterStart *State // snapshot at the loop head this path started from (state designator Si); nil before any loop
 	ghost  map[string]Sc   // ghost variables of the function under verification
 	caps   map[string]Val  // captured call arguments/results (contract directive `capture`)
 	wcount map[string]int  // per table: number of write operations so far on this path (iterator validity)
@@ -387,6 +388,7 @@ func (st *State) Clone() *State {
 	for k, v := range st.names {
 		n.names[k] = v
 	}
+	n.iterStart = st.iterStart
 	n.maps = make(map[int]*MapContent, len(st.maps))
 	for k, v := range st.maps {
 		n.maps[k] = v // contents are immutable values: updates replace the content
